@@ -965,6 +965,15 @@ WRAPS = {
     'Pn(x,1)': lambda P, x: P['Pn'](x, 1),
     'Pseq([Pseq([x])])': lambda P, x: P['Pseq']([P['Pseq']([x])]),
     'Pswitch([x],0)': lambda P, x: P['Pswitch']([x], P['Pseq']([0])),
+    # filters that are the identity for these arguments
+    'Plen(x,10)': lambda P, x: P['Plen'](x, 10),
+    'Pdrop(x,0)': lambda P, x: P['Pdrop'](x, 0),
+    'Pstutter(x,1)': lambda P, x: P['Pstutter'](x, 1),
+    'Pcollect(id,x)': lambda P, x: P['Pcollect'](lambda v: v, x),
+    'Pselect(true,x)': lambda P, x: P['Pselect'](lambda v: True, x),
+    'Place([x])': lambda P, x: P['Place']([x]),
+    'Platch(x,True)': lambda P, x: P['Platch'](x, True),
+    'Plazy(->x)': lambda P, x: P['Plazy'](lambda inval: x),
 }
 INPUT_RUNS = [(10, 20, 30, 40), ('u', 'v', 'w'), (1,), (0, 0, 7, 0, 9)]
 
@@ -973,7 +982,9 @@ def check_threading(rep, only_case=None):
     from sc3.base.stream import stream, StopStream
     from sc3.seq.patterns import funcpatterns as fp, listpatterns as lp, filterpatterns as flp
     P = {'Prout': fp.Prout, 'Pfuncn': fp.Pfuncn, 'Plazy': fp.Plazy, 'Pfunc': fp.Pfunc,
-         'Pseq': lp.Pseq, 'Pn': flp.Pn, 'Pswitch': lp.Pswitch}
+         'Pseq': lp.Pseq, 'Pn': flp.Pn, 'Pswitch': lp.Pswitch, 'Plen': flp.Plen, 'Pdrop': flp.Pdrop,
+         'Pstutter': flp.Pstutter, 'Pcollect': flp.Pcollect, 'Pselect': flp.Pselect, 'Place': lp.Place,
+         'Platch': flp.Platch}
 
     def run(pat, inputs):
         st = stream(pat)
@@ -1011,11 +1022,11 @@ def check_threading(rep, only_case=None):
                                   key='C13.threading:%s' % name,
                                   replay={'func': 'threading', 'args': case, 'ob': 'threading'})
     rep.bounded('input-threading', 'Prout/Pfuncn/Plazy/Pfunc embedded in Pseq/Pn/Pswitch',
-                bound='%d function patterns that echo their input x %d one-element wrappers x %d input runs'
+                bound='%d function patterns that echo their input x %d identity wrappers x %d input runs'
                       % (len(THREADING), len(WRAPS), len(INPUT_RUNS)),
                 evaluations=n, distinct_nontrivial=len(seen),
                 rule='stream(x).next(i) for the input run == stream(wrap(x)).next(i) for the same run '
-                     '(a one-element wrapper denotes its element)',
+                     '(a one-element list pattern, one repetition, or a filter with identity arguments denotes its element)',
                 samples=samples, exhaustive=True)
 
 
